@@ -70,6 +70,43 @@ fn main() {
                 u.scheme().map(|x| x.as_str()), u.authority().map(|x| x.as_str()), u.path().as_str(), u.query().map(|x| x.as_str()), u.fragment().map(|x| x.as_str())
             );
         }
+        // pathop <hex path> <op> [<hex segment>] : edit a stand-alone URI PathBuf, print the new text
+        "pathop" => {
+            let mut p = uri::PathBuf::new(hex(&a[2])).expect("valid path");
+            match a[3].as_str() {
+                "push" => p.push(uri::Segment::new(&hex(&a[4])).expect("valid segment")),
+                "pop" => p.pop(),
+                "clear" => p.clear(),
+                "symbolic_push" => p.symbolic_push(uri::Segment::new(&hex(&a[4])).expect("valid segment")),
+                "normalize" => p.normalize(),
+                "normalized" => { p = p.normalized(); }
+                _ => panic!("unknown path op"),
+            }
+            println!("{}", p.as_str());
+        }
+        // refpathop <hex uri-ref> <op> [<hex segment>] : edit the path of a UriRefBuf in place
+        "refpathop" => {
+            let mut u = uri::UriRefBuf::new(hex(&a[2])).expect("valid URI reference");
+            {
+                let mut p = u.path_mut();
+                match a[3].as_str() {
+                    "push" => p.push(uri::Segment::new(&hex(&a[4])).expect("valid segment")),
+                    "pop" => p.pop(),
+                    "clear" => p.clear(),
+                    "symbolic_push" => p.symbolic_push(uri::Segment::new(&hex(&a[4])).expect("valid segment")),
+                    "normalize" => p.normalize(),
+                    _ => panic!("unknown path op"),
+                }
+            }
+            println!("{} reparse={}", u.as_str(), uri::UriRef::new(u.as_bytes()).is_ok());
+        }
+        // resolve <hex ref> <hex base>
+        "resolve" => {
+            let r = uri::UriRefBuf::new(hex(&a[2])).expect("valid URI reference");
+            let bb = hex(&a[3]);
+            let b = uri::Uri::new(&bb).expect("valid base URI");
+            println!("{}", r.resolved(b).as_str());
+        }
         _ => panic!("unknown op"),
     }
 }
